@@ -563,6 +563,7 @@ def normal_form(fn, sigs=None):
     f.body = [al.visit(s) for s in f.body]
     f.body = [_SymOrder(set()).visit(st) for st in f.body]
     ast.fix_missing_locations(f)
+    f._alpha_map = dict(al.map)
     return f
 
 
@@ -598,3 +599,39 @@ def package_signatures(mods):
     for q in amb:
         sigs.pop(q, None)
     return sigs
+
+
+def nf_name_votes(cur_fn, ref_fn, sigs=None):
+    """Name correspondences between two functions read off their normal
+    forms: statements of N(cur) and N(ref) that are identical (after
+    alpha-renaming) pin the locals occurring in them.  Temporaries introduced
+    or removed by a refactoring have disappeared in the normal forms, so this
+    aligns the remaining (state) variables even when the statement lists of
+    the raw functions differ.  Returns {cur_name: {ref_name: votes}}."""
+    import difflib
+    from .rename import header_only
+    a, b = normal_form(cur_fn, sigs), normal_form(ref_fn, sigs)
+    inv_a = {v: k for k, v in a._alpha_map.items()}
+    inv_b = {v: k for k, v in b._alpha_map.items()}
+
+    def flat(f):
+        out = []
+        for st in ast.walk(f):
+            if isinstance(st, ast.stmt) and st is not f:
+                h = header_only(st)
+                out.append((getattr(st, 'lineno', 0), ast.dump(h), {n.id for n in ast.walk(h) if isinstance(n, ast.Name)}))
+        out.sort(key=lambda t: t[0])
+        return out
+    fa, fb = flat(a), flat(b)
+    sm = difflib.SequenceMatcher(a=[x[1] for x in fa], b=[x[1] for x in fb], autojunk=False)
+    votes = {}
+    for blk in sm.get_matching_blocks():
+        for k in range(blk.size):
+            for v in fa[blk.a + k][2]:
+                if v in inv_a and v in inv_b:
+                    x, y = inv_a[v], inv_b[v]
+                    if '__d' in x or '__d' in y:
+                        continue
+                    votes.setdefault(x, {}).setdefault(y, 0)
+                    votes[x][y] += 1
+    return votes
